@@ -222,13 +222,14 @@ def c12(ctx, rep):
     m = IpModel(ctx)
     checks_ip._undo_threading(ctx, m, rep, "C12")
     _word_and_as_shapes(ctx, rep, "C12")
+    checks_secret._enclosing_lists(ctx, rep, "C12")
 
 
 def _word_and_as_shapes(ctx, rep, cl):
     """Word stage and AS stage keep the line's frame (re-uses the C10 / C11 clause functions on a scratch report)."""
     from .report import Report
     from . import checks_secret, checks_rx
-    for pid, fnc, keep in (("C10", checks_secret.c10, ("C10.every-token", "C10.fast-path")), ("C11", checks_rx.c11, ("C11.sub-line", "C11.sub-callable", "C11.sub-plumbing", "C11.context-left", "C11.context-right", "C11.body-is-the-alternation"))):
+    for pid, fnc, keep in (("C10", checks_secret.c10, ("C10.every-token", "C10.fast-path", "C10.reserved-lowercased", "C10.reserved-reach-word-stage", "C10.skip-set-subset-of-reserved", "C10.skip-set-built")), ("C11", checks_rx.c11, ("C11.sub-line", "C11.sub-callable", "C11.sub-plumbing", "C11.context-left", "C11.context-right", "C11.body-is-the-alternation"))):
         sub = Report(pid, quiet=True)
         fnc(ctx, sub)
         for o in sub.obligations:
